@@ -32,6 +32,7 @@ Frame == UNCHANGED <<dl, dln, df, ownv, flags, nmsg, nlost, justc, hist>>
 Take(e, x) == Matches(e, x) /\ v' = [x EXCEPT !.out = <<>>]
 
 FreshV == [i |-> 1, step |-> 0, pc |-> FALSE, cd |-> FALSE, cm |-> FALSE, over |-> {}, wr |-> [ii \in 1..MaxI |-> EmptyWrapper],
+           gone |-> [ii \in 1..MaxI |-> EmptyWrapper],
            cache |-> [ii \in 1..MaxI |-> <<>>], out |-> <<>>]
 TReset == (IsEvent("reset") \/ IsEvent("abort")) /\ v' = FreshV /\ Frame
 TCfg == IsEvent("Cfg") /\ Take(TraceLog[l], FreshV) /\ Frame
